@@ -14,7 +14,8 @@ RULE = (
     "on both sides) x verify x cache_odb (none / all / some directory objects) x source class x destination class x "
     "destination index x source index; the would-be uploads are observed by a fault-free run, then for a fail set "
     "(thorough: every subset when <=4 uploads, else random subsets; quick: seeded sample): faulty round + fault-free "
-    "retry on the result (35% of the faulty rounds make some failing uploads partial: a strict prefix of the bytes "
+    "retry on the result (source index real/no-op when the source lost a listed file = fetch direction; 20% of the "
+    "first rounds let source file objects vanish between the status phase and the uploads; 35% of the faulty rounds make some failing uploads partial: a strict prefix of the bytes "
     "is left under the final name), some scenarios with an external deletion behind the index's back, plus crash "
     "rounds (correspondence only); plus histories of 2-4 rounds on one persistent destination index with per-round "
     "requests (push A; A's directory object and some files vanish; push B + a file of A / files only / A again). Every "
@@ -49,8 +50,9 @@ def _register(ctx, S, notes, items):
         ctx.count(n)
     for f in feats:
         ctx.count("feature:" + f)
-    ctx.count("class:" + case["src_cls"] + "->" + case["dst_cls"] + ("+dix" if case["dix"] else "")
-              + ("+six" if case["six"] else ""))
+    ctx.count("class:" + case["src_cls"] + "->" + case["dst_cls"]
+              + ("+dix" + ("(noop)" if case["dix"] == "noop" else "") if case["dix"] else "")
+              + ("+six" + ("(noop)" if case["six"] == "noop" else "") if case["six"] else ""))
     ctx.count("mode:" + ("shallow" if case["shallow"] else "expand") + ("/verify" if case["verify"] else ""))
     ctx.count("rounds", len(S.rounds))
     ctx.count("judged-rounds", sum(1 for ob in S.rounds if ob["outcome"][0] == "ok"))
@@ -91,12 +93,20 @@ def run(ctx):
             case = copy.deepcopy(base)
             case["dst_cls"] = ctx.rng.choice(["local", "base"])
             case["dix"] = ctx.rng.random() < 0.4
-            case["six"] = ctx.rng.random() < 0.12
+            if case["dix"] and ctx.rng.random() < 0.2:
+                case["dix"] = "noop"
+            if not case["six"] and ctx.rng.random() < 0.06:
+                case["six"] = True
             first = {"fails": list(F), "crash": None, "reset": True}
             if F and ctx.rng.random() < 0.35:
                 # a non-atomic remote: the failing upload leaves a truncated object under the final name
                 first["partial"] = sorted(ctx.rng.sample(list(F), ctx.rng.randint(1, len(F))))
                 ctx.count("fault:partial")
+            file_ups = [u for u in uploads if not u.endswith(".dir") and u not in (first.get("partial") or [])]
+            if file_ups and ctx.rng.random() < 0.2:
+                # these source objects vanish between the status phase and the uploads
+                first["vanish"] = sorted(ctx.rng.sample(file_ups, min(len(file_ups), ctx.rng.choice([1, 1, 2]))))
+                ctx.count("fault:vanish")
             case["rounds"] = [first,
                               {"fails": [], "crash": None, "reset": False}]
             if case["dix"] and ctx.rng.random() < 0.35:
